@@ -263,9 +263,36 @@ def setup(ctx):
     def __init__(self, req, *, opt=None):
       innermost()
 
+  # configurables whose repr (which Gin puts into the message) contains format-string metacharacters
+  import functools
+
+  def pfetch(table, options=None, limit=10):
+    innermost()
+  part = gin.external_configurable(functools.partial(pfetch, 'users', options={'retries': 2, '{scope_info}': '%s %(x)s {0} {}'}), 'c17partial', module='c17')
+
+  class Stage:
+    def __init__(self, **settings):
+      self.settings = settings
+
+    def __call__(self, limit=10):
+      innermost()
+
+    def __repr__(self):
+      return 'Stage(' + repr(self.settings) + ') {} {0} {name} %s %d %(k)s'
+  stage = gin.external_configurable(Stage(rate=0.5), 'c17stage', module='c17')
+
+  class ReprMeta(type):
+    def __repr__(cls):
+      return '<model ' + cls.__name__ + ' {hidden=64} {} %s>'
+
+  class Model(metaclass=ReprMeta):
+    def __init__(self, limit=10):
+      innermost()
+  model = gin.external_configurable(Model, 'c17Model', module='c17')
+
   _S['hostile'] = [lambda: kwonly(1, schema='s', strict=True), lambda: varargs(1, 2, 3, 4, flag=True, z=5), lambda: gin.get_configurable(Init)(0),
-                   lambda: kwonly(x=2, schema=None, strict=False)]
-  _S['hostile_names'] = ['kwonly', 'varargs', '__init__', 'kwonly']
+                   lambda: kwonly(x=2, schema=None, strict=False), lambda: part(), lambda: stage(limit=3), lambda: model()]
+  _S['hostile_names'] = ['kwonly', 'varargs', '__init__', 'kwonly', 'pfetch', '__call__', '__init__']
   _S['levels'] = {1: f1, 2: f2, 3: C3, 4: gin.get_configurable(f4)}
   _S['cons'] = cons
   _S['K'] = K
@@ -276,7 +303,7 @@ def iter_cases(ctx, rng, n):
   inst = _S['instances']
   for i in range(n):
     yield {'which': i % len(inst), 'depth': rng.choice([1, 1, 2, 3, 4]), 'site': rng.choice(['direct', 'direct', 'scoped', 'reference', 'method', 'hostile-signature']),
-           'hostile': rng.randrange(4)}
+           'hostile': rng.randrange(7)}
 
 
 def public_attrs(e):
